@@ -4,6 +4,7 @@
 -/
 import TuModel.Model.Metrics
 import TuModel.Lemmas.EditScript
+import TuModel.Lemmas.ScriptAcceptL
 import TuModel.Lemmas.TextL
 namespace Tu
 
@@ -180,77 +181,6 @@ theorem gwPhi_total (merged I : List Nat) (n : Nat) (hs : merged.Pairwise (· < 
   rw [e1, e2] at this
   exact this
 
-/-! ## the script as a forward trace -/
-
-/-- the scripts the backtrace can collect, built forwards from cell (0,0) -/
-inductive Trace (fl : EFlags) (a b : List (List Nat)) : Nat → Nat → List (EKind × Nat × Nat) → Prop
-  | zero : Trace fl a b 0 0 []
-  | keep {i j l} : Trace fl a b i j l → i < a.length → j < b.length → a.getD i [] = b.getD j [] →
-      Trace fl a b (i+1) (j+1) l
-  | ins {i j l} : Trace fl a b i j l → j < b.length → Trace fl a b i (j+1) (l ++ [(.insert, i, j)])
-  | del {i j l} : Trace fl a b i j l → i < a.length → Trace fl a b (i+1) j (l ++ [(.delete, i, j)])
-  | rep {i j l} : Trace fl a b i j l → i < a.length → j < b.length →
-      canReplace fl (a.getD i []) (b.getD j []) = true → Trace fl a b (i+1) (j+1) (l ++ [(.replace, i, j)])
-  | swp {i j l} : Trace fl a b i j l → fl.swap = true → Trace fl a b (i+2) (j+2) (l ++ [(.swap, i, j)])
-
-theorem backtrace_trace (fl : EFlags) (a b : List (List Nat)) :
-    ∀ (fuel i j : Nat) (acc ops : List (EKind × Nat × Nat)), i ≤ a.length → j ≤ b.length →
-      backtrace (fillTable fl a b) (b.length + 1) fuel i j acc = some ops →
-      ∃ l, ops = l ++ acc ∧ Trace fl a b i j l := by
-  intro fuel
-  induction fuel with
-  | zero => intro i j acc ops _ _ h; rw [backtrace] at h; exact absurd h (by simp)
-  | succ fuel ih =>
-    intro i j acc ops hi hj hb
-    rw [backtrace] at hb
-    by_cases h0 : i = 0 ∧ j = 0
-    · simp only [h0, and_self, if_true, Option.some.injEq] at hb
-      obtain ⟨rfl, rfl⟩ := h0
-      exact ⟨[], by simp [hb], .zero⟩
-    · simp only [h0, if_false] at hb
-      obtain ⟨_, hop⟩ := fillTable_ok fl a b i j hi hj
-      cases hv : (tblGet (fillTable fl a b) (b.length + 1) i j).2 with
-      | none => rw [hv] at hop; exact absurd hop (by simp [EOpOK])
-      | keep =>
-        rw [hv] at hop hb
-        rcases hop with hz | ⟨i', j', rfl, rfl, he, _⟩
-        · exact absurd hz h0
-        · simp only [Nat.add_sub_cancel, ge_iff_le, Nat.le_add_left, and_self, if_true] at hb
-          obtain ⟨l, hl, ht⟩ := ih i' j' acc ops (by omega) (by omega) hb
-          exact ⟨l, hl, ht.keep (by omega) (by omega) he⟩
-      | insert =>
-        rw [hv] at hop hb
-        obtain ⟨j', rfl, _⟩ := hop
-        simp only [Nat.add_sub_cancel, ge_iff_le, Nat.le_add_left, if_true] at hb
-        obtain ⟨l, hl, ht⟩ := ih i j' _ ops hi (by omega) hb
-        exact ⟨l ++ [(.insert, i, j')], by simp [hl], ht.ins (by omega)⟩
-      | delete =>
-        rw [hv] at hop hb
-        obtain ⟨i', rfl, _⟩ := hop
-        simp only [Nat.add_sub_cancel, ge_iff_le, Nat.le_add_left, if_true] at hb
-        obtain ⟨l, hl, ht⟩ := ih i' j _ ops (by omega) hj hb
-        exact ⟨l ++ [(.delete, i', j)], by simp [hl], ht.del (by omega)⟩
-      | replace =>
-        rw [hv] at hop hb
-        obtain ⟨i', j', rfl, rfl, _, hr, _⟩ := hop
-        simp only [Nat.add_sub_cancel, ge_iff_le, Nat.le_add_left, and_self, if_true] at hb
-        obtain ⟨l, hl, ht⟩ := ih i' j' _ ops (by omega) (by omega) hb
-        exact ⟨l ++ [(.replace, i', j')], by simp [hl], ht.rep (by omega) (by omega) hr⟩
-      | swap =>
-        rw [hv] at hop hb
-        obtain ⟨i', j', rfl, rfl, _, _, hs, _, _⟩ := hop
-        simp only [Nat.add_sub_cancel, ge_iff_le, Nat.le_add_left, and_self, if_true] at hb
-        obtain ⟨l, hl, ht⟩ := ih i' j' _ ops (by omega) (by omega) hb
-        exact ⟨l ++ [(.swap, i', j')], by simp [hl], ht.swp hs⟩
-
-theorem editOperations_trace (fl : EFlags) (a b : List (List Nat)) :
-    ∃ ops, editOperations fl a b = some ops ∧ Trace fl a b a.length b.length ops := by
-  obtain ⟨l, hb, _⟩ := backtrace_ok fl a b (a.length + b.length + 1) a.length b.length []
-    (Nat.le_refl _) (Nat.le_refl _) (by omega)
-  obtain ⟨l', hl', ht⟩ := backtrace_trace fl a b _ _ _ [] _ (Nat.le_refl _) (Nat.le_refl _) hb
-  refine ⟨l, by simpa [editOperations] using hb, ?_⟩
-  simp only [List.append_nil] at hl'
-  rw [hl']; exact ht
 
 /-! ## whitespace bookkeeping along a script (`sid`, no swaps) -/
 
